@@ -517,8 +517,10 @@ template <typename Target, typename Enable = void>
 struct SafeCastingChecker {
     template <typename T>
     constexpr bool operator()(T x) {
+        // The last condition rejects nonzero values so tiny that they would turn into zero.
         return stdx::cmp_less_equal(std::numeric_limits<RealPart<Target>>::lowest(), x) &&
-               stdx::cmp_greater_equal(std::numeric_limits<RealPart<Target>>::max(), x);
+               stdx::cmp_greater_equal(std::numeric_limits<RealPart<Target>>::max(), x) &&
+               ((x == T{0}) || (static_cast<RealPart<Target>>(x) != RealPart<Target>{0}));
     }
 };
 
